@@ -60,6 +60,7 @@ type Scenario struct {
 	Readers []string         `json:"readers"`
 	NoLock  bool             `json:"nolock"`
 	Legacy  bool             `json:"legacy"`
+	NoLog   bool             `json:"nolog"`
 	RKind   string           `json:"rkind"`
 	RID     string           `json:"rid"`
 }
@@ -163,8 +164,14 @@ func (r *runner) advance(name string) {
 		r.ensure(name)
 		return
 	}
+	_, already := r.procs[name]
 	p := r.ensure(name)
 	if p.Exited() && p.parked == nil {
+		return
+	}
+	if !already && p.parked != nil && writerPoints[p.parked.Point] && !r.isReader(name) {
+		// the very first sync point of the process is one the model parks at
+		// (init: the creation of the log file): starting it was the step
 		return
 	}
 	if r.isReader(name) {
@@ -261,6 +268,9 @@ func (e *Env) realise(tag string, scn Scenario, sched [][]string, workdir string
 	}
 	if scn.NoLock {
 		_ = os.Remove(filepath.Join(st.ErgoDir(), "lock"))
+	}
+	if scn.NoLog {
+		_ = os.Remove(filepath.Join(st.ErgoDir(), "plans.jsonl"))
 	}
 	ids := newIDMap()
 	rawPre := st.readLog()
